@@ -45,14 +45,21 @@ def _client(args):
                 d["cipher"] != c or d["mac"] != m or d["auth_uid"] != uid or d["ttl"] != (ttl or 300):
             problems.append("client %d (uid %d) got a reply that is not its own: error %d uid %d gid %d cipher %d len %d payload-head %r"
                             % (idx, uid, d["error_num"], d["cred_uid"], d["cred_gid"], d["cipher"], d["data_len"], d["data"][:24]))
+        if not (idx % 12 == 0 and idx < 40) and r % 2 == 1:
+            # a lookup through the group map by every client (the answer depends on the database version; only its arrival is required)
+            e8, st = rig.encode(sock, uid=uid, gid=gid, auth_gid=700, data=b"g")
+            if e8 and e8["error_num"] == 0:
+                d8, st = rig.decode(sock, e8["data"], uid=uid, gid=gid)
+                if d8 is None:
+                    problems.append("client %d: no reply to a GID-restricted decode (%s)" % (idx, st))
         if idx % 12 == 0 and idx < 40 and r % 2 == 0:
             # this client's user is listed in group 700 by EVERY version of the group database that the SIGHUP loop writes,
             # so a credential restricted to GID 700 is his whatever refresh of the group map is in progress
-            e7, st = rig.encode(sock, uid=uid, gid=gid, auth_gid=700, data=payload)
+            e7, st = rig.encode(sock, uid=uid, gid=gid, auth_gid=700 + (r // 2) % 8, data=payload)
             d7, st = rig.decode(sock, e7["data"], uid=uid, gid=gid) if e7 and e7["error_num"] == 0 else (None, st)
             if d7 is None or d7["error_num"] != 0 or d7["data"] != payload:
-                problems.append("client %d (uid %d, a member of group 700 in every version of the group database) was refused a "
-                                "credential restricted to GID 700 while the group map was being refreshed: %s"
+                problems.append("client %d (uid %d, a member of groups 700..707 in every version of the group database) was refused a "
+                                "credential restricted to one of them while the group map was being refreshed: %s"
                                 % (idx, uid, d7 and (d7["error_num"], d7["error_str"])))
         # an unauthorized peek at somebody else's restricted credential must fail with MY ids in the message
         d2, st = rig.decode(sock, e["data"], uid=uid + 1, gid=gid)
@@ -155,9 +162,16 @@ def run_races(ctx, exe, label, nthreads, nclients, rounds):
 
 
 def run_load(ctx, exe, label, nthreads, nclients, rounds, sighup):
-    db = {"groups": [(700, ["u%d" % i for i in range(0, 40, 3)]), (701, [])], "users": [("u%d" % i, 1000 + i) for i in range(40)]}
+    stable = ["u0", "u12", "u24", "u36"]      # members of every group in every version of the database
+
+    def version(step):
+        return {"groups": [(700 + j, stable + ["u%d" % i for i in range(1 + j, 40, step) if "u%d" % i not in stable]) for j in range(8)],
+                "users": [("u%d" % i, 1000 + i) for i in range(40)]}
+    db = version(3)
     # a slow directory service (10 ms per group entry): a refresh of the group map is in progress most of the time
-    d = rig.Daemon(ctx, exe, tag=label, nthreads=nthreads, nss_db=db, env={"VERIF_NSS_DELAY_US": "10000"} if sighup else None)
+    # ... and the periodic refresh (every second) runs as well, so that SIGHUP-triggered and periodic refreshes overlap
+    d = rig.Daemon(ctx, exe, tag=label, nthreads=nthreads, nss_db=db, env={"VERIF_NSS_DELAY_US": "10000"} if sighup else None,
+                   extra=["--group-update-time=1"] if sighup else ())
     if not d.start(wait=20):
         return ["daemon (%s) does not start" % label], ""
     time.sleep(0.5)
@@ -173,7 +187,7 @@ def run_load(ctx, exe, label, nthreads, nclients, rounds, sighup):
         hres = hpool.map_async(_hostile, [(d.sock, t0 + (8.0 if ctx.thorough else 3.0), ctx.seed * 31 + k) for k in range(5)])
         while not res.ready():
             if sighup:
-                d.write_nss({"groups": [(700, ["u%d" % i for i in range(0, 40, 2 + int(time.time() * 10) % 3)])], "users": db["users"]})
+                d.write_nss(version(2 + int(time.time() * 10) % 3))
                 d.p.send_signal(signal.SIGHUP)
             time.sleep(0.05)
             if time.time() - t0 > 120:
@@ -181,13 +195,12 @@ def run_load(ctx, exe, label, nthreads, nclients, rounds, sighup):
                 break
         out = res.get(timeout=5) if res.ready() else []
     finally:
-        pool.terminate()
-        pool.join()
-        try:
-            hpool.terminate()
-            hpool.join()
-        except Exception:
-            pass
+        for pl in (pool, hpool):
+            try:
+                pl.terminate()
+                pl.join()
+            except Exception:       # multiprocessing asserts when a pool is torn down with tasks still outstanding
+                pass
     succ = 0
     for p, ok in out:
         problems += p
